@@ -1,1 +1,550 @@
-int iomon_placeholder;
+/*
+ * iomon — LD_PRELOAD observer and fault/delay injector for the bita process.
+ *
+ * Environment:
+ *   IOMON_LOG=<path>            binary event log (append)
+ *   IOMON_WATCH=<p0>:<p1>:...   absolute paths to watch (index = position)
+ *   IOMON_FAULT=<widx>,<k>,<mode>,<arg>[,sticky]
+ *        fault on the k-th (0-based, global over all threads) write-type call
+ *        (write/pwrite/writev) to watched path widx.
+ *        modes: errno (arg = errno value; nothing written, -1 returned)
+ *               torn  (arg = t; first t bytes are written, then _exit(137))
+ *               exit_before / exit_after (arg ignored; _exit(137))
+ *               short (arg = t; only t bytes are written, t returned — a legal
+ *                      short write, no error)
+ *        ",sticky": every later write to that path fails the same way (errno mode).
+ *   IOMON_TRUNC_FAULT=<widx>,<mode>,<arg>   same for ftruncate (errno|exit_before|exit_after)
+ *   IOMON_DELAY=<widx>,<seed>,<max_us>,<ops>[;...]  sleep before ops on path widx;
+ *        ops is a string of: w (writes) r (reads) o (open) c (copy_file_range/sendfile source)
+ *   IOMON_LOGREADS=1            also log reads on watched paths
+ *
+ * Record layout (little endian, packed):
+ *   u32 magic 0x494f4d4e, u32 kind, u64 seq0, u64 seq1, u32 tid, i32 fd, i32 widx,
+ *   i64 off, u64 len, i64 ret, i32 err, i32 aux, u32 datalen, data[datalen]
+ * seq0 is taken on entry, seq1 on return, from one global counter.
+ */
+#define _GNU_SOURCE
+#include <dlfcn.h>
+#include <errno.h>
+#include <fcntl.h>
+#include <pthread.h>
+#include <stdarg.h>
+#include <stdint.h>
+#include <stdio.h>
+#include <stdlib.h>
+#include <string.h>
+#include <sys/stat.h>
+#include <sys/syscall.h>
+#include <sys/types.h>
+#include <sys/uio.h>
+#include <time.h>
+#include <unistd.h>
+
+enum {
+    K_OPEN = 1, K_WRITE = 2, K_PWRITE = 3, K_LSEEK = 4, K_FTRUNCATE = 5, K_UNLINK = 6,
+    K_RENAME = 7, K_CLOSE = 8, K_READ = 9, K_COPY = 10, K_FSYNC = 11, K_FAULT = 12,
+    K_TRUNCATE = 13, K_PREAD = 14
+};
+
+#define MAXW 8
+static char *watch[MAXW];
+static int nwatch = 0;
+static int log_fd = -1;
+static int log_reads = 0;
+static pthread_mutex_t log_mu = PTHREAD_MUTEX_INITIALIZER;
+static volatile uint64_t g_seq = 0;
+static volatile uint64_t wcount[MAXW];
+static volatile uint64_t dcount[MAXW];
+
+static int f_widx = -1; static uint64_t f_k = 0; static int f_mode = 0; static long f_arg = 0; static int f_sticky = 0;
+static volatile int f_fired = 0;
+enum { M_ERRNO = 1, M_TORN = 2, M_EXIT_BEFORE = 3, M_EXIT_AFTER = 4, M_SHORT = 5 };
+static int t_widx = -1; static int t_mode = 0; static long t_arg = 0;
+
+static struct { int widx; uint64_t seed; uint64_t max_us; char ops[8]; } delays[MAXW];
+static int ndelays = 0;
+
+static ssize_t (*real_write)(int, const void *, size_t);
+static ssize_t (*real_pwrite64)(int, const void *, size_t, off64_t);
+static ssize_t (*real_writev)(int, const struct iovec *, int);
+static ssize_t (*real_read)(int, void *, size_t);
+static ssize_t (*real_pread64)(int, void *, size_t, off64_t);
+static ssize_t (*real_readv)(int, const struct iovec *, int);
+static off64_t (*real_lseek64)(int, off64_t, int);
+static int (*real_ftruncate64)(int, off64_t);
+static int (*real_truncate64)(const char *, off64_t);
+static int (*real_open64)(const char *, int, ...);
+static int (*real_openat64)(int, const char *, int, ...);
+static int (*real_unlink)(const char *);
+static int (*real_unlinkat)(int, const char *, int);
+static int (*real_rename)(const char *, const char *);
+static int (*real_renameat)(int, const char *, int, const char *);
+static int (*real_close)(int);
+static int (*real_fsync)(int);
+static int (*real_fdatasync)(int);
+static ssize_t (*real_copy_file_range)(int, off64_t *, int, off64_t *, size_t, unsigned int);
+static ssize_t (*real_sendfile64)(int, int, off64_t *, size_t);
+
+static int initialized = 0;
+static pthread_once_t once = PTHREAD_ONCE_INIT;
+
+static uint64_t mix(uint64_t x) {
+    x ^= x >> 33; x *= 0xff51afd7ed558ccdULL; x ^= x >> 33; x *= 0xc4ceb9fe1a85ec53ULL; x ^= x >> 33;
+    return x;
+}
+
+static int mode_of(const char *s) {
+    if (!strcmp(s, "errno")) return M_ERRNO;
+    if (!strcmp(s, "torn")) return M_TORN;
+    if (!strcmp(s, "exit_before")) return M_EXIT_BEFORE;
+    if (!strcmp(s, "exit_after")) return M_EXIT_AFTER;
+    if (!strcmp(s, "short")) return M_SHORT;
+    return 0;
+}
+
+static void do_init(void) {
+    real_write = dlsym(RTLD_NEXT, "write");
+    real_pwrite64 = dlsym(RTLD_NEXT, "pwrite64");
+    real_writev = dlsym(RTLD_NEXT, "writev");
+    real_read = dlsym(RTLD_NEXT, "read");
+    real_pread64 = dlsym(RTLD_NEXT, "pread64");
+    real_readv = dlsym(RTLD_NEXT, "readv");
+    real_lseek64 = dlsym(RTLD_NEXT, "lseek64");
+    real_ftruncate64 = dlsym(RTLD_NEXT, "ftruncate64");
+    real_truncate64 = dlsym(RTLD_NEXT, "truncate64");
+    real_open64 = dlsym(RTLD_NEXT, "open64");
+    real_openat64 = dlsym(RTLD_NEXT, "openat64");
+    real_unlink = dlsym(RTLD_NEXT, "unlink");
+    real_unlinkat = dlsym(RTLD_NEXT, "unlinkat");
+    real_rename = dlsym(RTLD_NEXT, "rename");
+    real_renameat = dlsym(RTLD_NEXT, "renameat");
+    real_close = dlsym(RTLD_NEXT, "close");
+    real_fsync = dlsym(RTLD_NEXT, "fsync");
+    real_fdatasync = dlsym(RTLD_NEXT, "fdatasync");
+    real_copy_file_range = dlsym(RTLD_NEXT, "copy_file_range");
+    real_sendfile64 = dlsym(RTLD_NEXT, "sendfile64");
+
+    const char *w = getenv("IOMON_WATCH");
+    if (w) {
+        char *dup = strdup(w), *save = NULL;
+        for (char *t = strtok_r(dup, ":", &save); t && nwatch < MAXW; t = strtok_r(NULL, ":", &save))
+            watch[nwatch++] = strdup(t);
+        free(dup);
+    }
+    const char *lr = getenv("IOMON_LOGREADS");
+    log_reads = lr && lr[0] == '1';
+    const char *f = getenv("IOMON_FAULT");
+    if (f) {
+        char buf[128]; strncpy(buf, f, sizeof buf - 1); buf[sizeof buf - 1] = 0;
+        char *save = NULL; char *t;
+        if ((t = strtok_r(buf, ",", &save))) f_widx = atoi(t);
+        if ((t = strtok_r(NULL, ",", &save))) f_k = strtoull(t, NULL, 10);
+        if ((t = strtok_r(NULL, ",", &save))) f_mode = mode_of(t);
+        if ((t = strtok_r(NULL, ",", &save))) f_arg = atol(t);
+        if ((t = strtok_r(NULL, ",", &save))) f_sticky = !strcmp(t, "sticky");
+        if (!f_mode) f_widx = -1;
+    }
+    const char *tf = getenv("IOMON_TRUNC_FAULT");
+    if (tf) {
+        char buf[128]; strncpy(buf, tf, sizeof buf - 1); buf[sizeof buf - 1] = 0;
+        char *save = NULL; char *t;
+        if ((t = strtok_r(buf, ",", &save))) t_widx = atoi(t);
+        if ((t = strtok_r(NULL, ",", &save))) t_mode = mode_of(t);
+        if ((t = strtok_r(NULL, ",", &save))) t_arg = atol(t);
+        if (!t_mode) t_widx = -1;
+    }
+    const char *d = getenv("IOMON_DELAY");
+    if (d) {
+        char *dup = strdup(d), *save = NULL;
+        for (char *e = strtok_r(dup, ";", &save); e && ndelays < MAXW; e = strtok_r(NULL, ";", &save)) {
+            int wi; unsigned long long seed, mx; char ops[8] = {0};
+            if (sscanf(e, "%d,%llu,%llu,%7s", &wi, &seed, &mx, ops) == 4) {
+                delays[ndelays].widx = wi; delays[ndelays].seed = seed; delays[ndelays].max_us = mx;
+                strncpy(delays[ndelays].ops, ops, 7); ndelays++;
+            }
+        }
+        free(dup);
+    }
+    const char *lp = getenv("IOMON_LOG");
+    if (lp && real_open64) {
+        int fd = real_open64(lp, O_WRONLY | O_CREAT | O_APPEND | O_CLOEXEC, 0644);
+        if (fd >= 0) {
+            int hi = fcntl(fd, F_DUPFD_CLOEXEC, 700);
+            if (hi >= 0) { real_close(fd); fd = hi; }
+            log_fd = fd;
+        }
+    }
+    initialized = 1;
+}
+
+static inline void init(void) { if (!initialized) pthread_once(&once, do_init); }
+
+static uint64_t next_seq(void) { return __sync_fetch_and_add(&g_seq, 1); }
+
+static int path_widx(const char *p) {
+    for (int i = 0; i < nwatch; i++) if (!strcmp(p, watch[i])) return i;
+    return -1;
+}
+
+static int fd_widx(int fd) {
+    if (nwatch == 0 || fd < 0 || fd == log_fd) return -1;
+    char link[64], buf[4096];
+    snprintf(link, sizeof link, "/proc/self/fd/%d", fd);
+    ssize_t n = readlink(link, buf, sizeof buf - 1);
+    if (n <= 0) return -1;
+    buf[n] = 0;
+    return path_widx(buf);
+}
+
+static int abs_path_widx(int dirfd, const char *path) {
+    if (nwatch == 0 || !path) return -1;
+    if (path[0] == '/') return path_widx(path);
+    char buf[8192];
+    if (dirfd == AT_FDCWD) {
+        if (!getcwd(buf, sizeof buf - 2)) return -1;
+    } else {
+        char link[64]; snprintf(link, sizeof link, "/proc/self/fd/%d", dirfd);
+        ssize_t n = readlink(link, buf, 4096); if (n <= 0) return -1; buf[n] = 0;
+    }
+    size_t l = strlen(buf);
+    if (l + 1 + strlen(path) + 1 > sizeof buf) return -1;
+    buf[l] = '/'; strcpy(buf + l + 1, path);
+    return path_widx(buf);
+}
+
+struct __attribute__((packed)) rec {
+    uint32_t magic, kind; uint64_t seq0, seq1; uint32_t tid; int32_t fd, widx;
+    int64_t off; uint64_t len; int64_t ret; int32_t err, aux; uint32_t datalen;
+};
+
+static void log_rec(uint32_t kind, uint64_t seq0, int fd, int widx, int64_t off, uint64_t len,
+                    int64_t ret, int err, int aux, const void *data, uint32_t datalen) {
+    if (log_fd < 0) return;
+    struct rec r;
+    r.magic = 0x494f4d4e; r.kind = kind; r.seq0 = seq0; r.tid = (uint32_t)syscall(SYS_gettid);
+    r.fd = fd; r.widx = widx; r.off = off; r.len = len; r.ret = ret; r.err = err; r.aux = aux;
+    r.datalen = datalen;
+    struct iovec iov[2] = {{&r, sizeof r}, {(void *)data, datalen}};
+    pthread_mutex_lock(&log_mu);
+    r.seq1 = next_seq();
+    if (real_writev) {
+        ssize_t w = real_writev(log_fd, iov, datalen ? 2 : 1);
+        (void)w;
+    }
+    pthread_mutex_unlock(&log_mu);
+}
+
+static void maybe_delay(int widx, char op) {
+    for (int i = 0; i < ndelays; i++) {
+        if (delays[i].widx == widx && strchr(delays[i].ops, op) && delays[i].max_us > 0) {
+            uint64_t n = __sync_fetch_and_add(&dcount[widx & (MAXW - 1)], 1);
+            uint64_t us = mix(delays[i].seed ^ mix(n + ((uint64_t)op << 32))) % (delays[i].max_us + 1);
+            /* a quarter of the operations get no delay at all, to vary relative order */
+            if ((mix(delays[i].seed + n) & 3) == 0) us = 0;
+            if (us) { struct timespec ts = {us / 1000000, (us % 1000000) * 1000}; nanosleep(&ts, NULL); }
+        }
+    }
+}
+
+/* Decide the fault for this write-type call. Returns mode or 0. */
+static int write_fault(int widx, uint64_t *kout) {
+    uint64_t k = __sync_fetch_and_add(&wcount[widx & (MAXW - 1)], 1);
+    *kout = k;
+    if (widx != f_widx) return 0;
+    if (k == f_k) { f_fired = 1; return f_mode; }
+    if (f_sticky && f_fired && k > f_k && f_mode == M_ERRNO) return M_ERRNO;
+    return 0;
+}
+
+static void die(void) { _exit(137); }
+
+typedef ssize_t (*wfn)(int fd, const void *buf, size_t n, off64_t off);
+static ssize_t do_plain_write(int fd, const void *buf, size_t n, off64_t off) { (void)off; return real_write(fd, buf, n); }
+static ssize_t do_pwrite(int fd, const void *buf, size_t n, off64_t off) { return real_pwrite64(fd, buf, n, off); }
+
+static ssize_t watched_write(int kind, int fd, int widx, const void *buf, size_t n, off64_t off, wfn fn) {
+    uint64_t seq0 = next_seq();
+    uint64_t k;
+    int mode = write_fault(widx, &k);
+    off64_t pos = (kind == K_PWRITE) ? off : real_lseek64(fd, 0, SEEK_CUR);
+    maybe_delay(widx, 'w');
+    if (mode == M_ERRNO) {
+        log_rec(K_FAULT, seq0, fd, widx, pos, n, -1, (int)f_arg, mode, NULL, 0);
+        errno = (int)f_arg;
+        return -1;
+    }
+    if (mode == M_EXIT_BEFORE) {
+        log_rec(K_FAULT, seq0, fd, widx, pos, n, 0, 0, mode, NULL, 0);
+        die();
+    }
+    size_t todo = n;
+    if (mode == M_TORN || mode == M_SHORT) { if ((size_t)f_arg < todo) todo = (size_t)f_arg; }
+    ssize_t ret = todo ? fn(fd, buf, todo, off) : 0;
+    int err = ret < 0 ? errno : 0;
+    log_rec(kind, seq0, fd, widx, pos, n, ret, err, (int)k, buf, ret > 0 ? (uint32_t)ret : 0);
+    if (mode == M_TORN || mode == M_EXIT_AFTER) {
+        log_rec(K_FAULT, seq0, fd, widx, pos, n, ret, 0, mode, NULL, 0);
+        die();
+    }
+    if (ret < 0) errno = err;
+    return ret;
+}
+
+ssize_t write(int fd, const void *buf, size_t n) {
+    init();
+    int widx = (fd > 2) ? fd_widx(fd) : -1;
+    if (widx < 0) return real_write(fd, buf, n);
+    return watched_write(K_WRITE, fd, widx, buf, n, 0, do_plain_write);
+}
+
+ssize_t pwrite64(int fd, const void *buf, size_t n, off64_t off) {
+    init();
+    int widx = fd_widx(fd);
+    if (widx < 0) return real_pwrite64(fd, buf, n, off);
+    return watched_write(K_PWRITE, fd, widx, buf, n, off, do_pwrite);
+}
+ssize_t pwrite(int fd, const void *buf, size_t n, off_t off) { return pwrite64(fd, buf, n, off); }
+
+ssize_t writev(int fd, const struct iovec *iov, int cnt) {
+    init();
+    int widx = (fd > 2) ? fd_widx(fd) : -1;
+    if (widx < 0) return real_writev(fd, iov, cnt);
+    /* Flatten so that the same fault logic applies; semantics of a (possibly short) writev are kept. */
+    size_t total = 0;
+    for (int i = 0; i < cnt; i++) total += iov[i].iov_len;
+    char *tmp = malloc(total ? total : 1);
+    size_t o = 0;
+    for (int i = 0; i < cnt; i++) { memcpy(tmp + o, iov[i].iov_base, iov[i].iov_len); o += iov[i].iov_len; }
+    ssize_t r = watched_write(K_WRITE, fd, widx, tmp, total, 0, do_plain_write);
+    int e = errno;
+    free(tmp);
+    errno = e;
+    return r;
+}
+
+ssize_t read(int fd, void *buf, size_t n) {
+    init();
+    int widx = (fd > 2) ? fd_widx(fd) : -1;
+    if (widx < 0) return real_read(fd, buf, n);
+    uint64_t seq0 = next_seq();
+    off64_t pos = real_lseek64(fd, 0, SEEK_CUR);
+    maybe_delay(widx, 'r');
+    ssize_t ret = real_read(fd, buf, n);
+    int err = ret < 0 ? errno : 0;
+    if (log_reads) log_rec(K_READ, seq0, fd, widx, pos, n, ret, err, 0, NULL, 0);
+    if (ret < 0) errno = err;
+    return ret;
+}
+
+ssize_t pread64(int fd, void *buf, size_t n, off64_t off) {
+    init();
+    int widx = fd_widx(fd);
+    if (widx < 0) return real_pread64(fd, buf, n, off);
+    uint64_t seq0 = next_seq();
+    maybe_delay(widx, 'r');
+    ssize_t ret = real_pread64(fd, buf, n, off);
+    int err = ret < 0 ? errno : 0;
+    if (log_reads) log_rec(K_PREAD, seq0, fd, widx, off, n, ret, err, 0, NULL, 0);
+    if (ret < 0) errno = err;
+    return ret;
+}
+ssize_t pread(int fd, void *buf, size_t n, off_t off) { return pread64(fd, buf, n, off); }
+
+ssize_t readv(int fd, const struct iovec *iov, int cnt) {
+    init();
+    int widx = (fd > 2) ? fd_widx(fd) : -1;
+    if (widx < 0) return real_readv(fd, iov, cnt);
+    uint64_t seq0 = next_seq();
+    off64_t pos = real_lseek64(fd, 0, SEEK_CUR);
+    maybe_delay(widx, 'r');
+    ssize_t ret = real_readv(fd, iov, cnt);
+    int err = ret < 0 ? errno : 0;
+    if (log_reads) log_rec(K_READ, seq0, fd, widx, pos, 0, ret, err, 1, NULL, 0);
+    if (ret < 0) errno = err;
+    return ret;
+}
+
+off64_t lseek64(int fd, off64_t off, int whence) {
+    init();
+    int widx = (fd > 2) ? fd_widx(fd) : -1;
+    if (widx < 0) return real_lseek64(fd, off, whence);
+    uint64_t seq0 = next_seq();
+    off64_t ret = real_lseek64(fd, off, whence);
+    int err = ret < 0 ? errno : 0;
+    log_rec(K_LSEEK, seq0, fd, widx, off, 0, ret, err, whence, NULL, 0);
+    if (ret < 0) errno = err;
+    return ret;
+}
+off_t lseek(int fd, off_t off, int whence) { return lseek64(fd, off, whence); }
+
+int ftruncate64(int fd, off64_t len) {
+    init();
+    int widx = fd_widx(fd);
+    if (widx < 0) return real_ftruncate64(fd, len);
+    uint64_t seq0 = next_seq();
+    if (widx == t_widx) {
+        if (t_mode == M_ERRNO) { log_rec(K_FAULT, seq0, fd, widx, len, 0, -1, (int)t_arg, 100 + t_mode, NULL, 0); errno = (int)t_arg; return -1; }
+        if (t_mode == M_EXIT_BEFORE) { log_rec(K_FAULT, seq0, fd, widx, len, 0, 0, 0, 100 + t_mode, NULL, 0); die(); }
+    }
+    int ret = real_ftruncate64(fd, len);
+    int err = ret < 0 ? errno : 0;
+    log_rec(K_FTRUNCATE, seq0, fd, widx, len, 0, ret, err, 0, NULL, 0);
+    if (widx == t_widx && t_mode == M_EXIT_AFTER) { log_rec(K_FAULT, seq0, fd, widx, len, 0, ret, 0, 100 + t_mode, NULL, 0); die(); }
+    if (ret < 0) errno = err;
+    return ret;
+}
+int ftruncate(int fd, off_t len) { return ftruncate64(fd, len); }
+
+int truncate64(const char *path, off64_t len) {
+    init();
+    int widx = abs_path_widx(AT_FDCWD, path);
+    uint64_t seq0 = next_seq();
+    int ret = real_truncate64(path, len);
+    int err = ret < 0 ? errno : 0;
+    log_rec(K_TRUNCATE, seq0, -1, widx, len, 0, ret, err, 0, path, (uint32_t)strlen(path));
+    if (ret < 0) errno = err;
+    return ret;
+}
+int truncate(const char *path, off_t len) { return truncate64(path, len); }
+
+static int open_common(int dirfd, const char *path, int flags, mode_t mode, int at) {
+    init();
+    int widx = abs_path_widx(dirfd, path);
+    uint64_t seq0 = next_seq();
+    if (widx >= 0) maybe_delay(widx, 'o');
+    int ret = at ? real_openat64(dirfd, path, flags, mode) : real_open64(path, flags, mode);
+    int err = ret < 0 ? errno : 0;
+    if (widx >= 0 || (flags & (O_WRONLY | O_RDWR | O_CREAT | O_TRUNC | O_APPEND)))
+        log_rec(K_OPEN, seq0, ret, widx, 0, 0, ret, err, flags, path, path ? (uint32_t)strlen(path) : 0);
+    if (ret < 0) errno = err;
+    return ret;
+}
+
+int open64(const char *path, int flags, ...) {
+    mode_t mode = 0;
+    if (flags & (O_CREAT | O_TMPFILE)) { va_list ap; va_start(ap, flags); mode = va_arg(ap, mode_t); va_end(ap); }
+    return open_common(AT_FDCWD, path, flags, mode, 0);
+}
+int open(const char *path, int flags, ...) {
+    mode_t mode = 0;
+    if (flags & (O_CREAT | O_TMPFILE)) { va_list ap; va_start(ap, flags); mode = va_arg(ap, mode_t); va_end(ap); }
+    return open_common(AT_FDCWD, path, flags, mode, 0);
+}
+int openat64(int dirfd, const char *path, int flags, ...) {
+    mode_t mode = 0;
+    if (flags & (O_CREAT | O_TMPFILE)) { va_list ap; va_start(ap, flags); mode = va_arg(ap, mode_t); va_end(ap); }
+    return open_common(dirfd, path, flags, mode, 1);
+}
+int openat(int dirfd, const char *path, int flags, ...) {
+    mode_t mode = 0;
+    if (flags & (O_CREAT | O_TMPFILE)) { va_list ap; va_start(ap, flags); mode = va_arg(ap, mode_t); va_end(ap); }
+    return open_common(dirfd, path, flags, mode, 1);
+}
+int creat64(const char *path, mode_t mode) { return open_common(AT_FDCWD, path, O_CREAT | O_WRONLY | O_TRUNC, mode, 0); }
+int creat(const char *path, mode_t mode) { return open_common(AT_FDCWD, path, O_CREAT | O_WRONLY | O_TRUNC, mode, 0); }
+
+int unlink(const char *path) {
+    init();
+    int widx = abs_path_widx(AT_FDCWD, path);
+    uint64_t seq0 = next_seq();
+    int ret = real_unlink(path);
+    int err = ret < 0 ? errno : 0;
+    log_rec(K_UNLINK, seq0, -1, widx, 0, 0, ret, err, 0, path, (uint32_t)strlen(path));
+    if (ret < 0) errno = err;
+    return ret;
+}
+int unlinkat(int dirfd, const char *path, int flags) {
+    init();
+    int widx = abs_path_widx(dirfd, path);
+    uint64_t seq0 = next_seq();
+    int ret = real_unlinkat(dirfd, path, flags);
+    int err = ret < 0 ? errno : 0;
+    log_rec(K_UNLINK, seq0, -1, widx, 0, 0, ret, err, flags, path, (uint32_t)strlen(path));
+    if (ret < 0) errno = err;
+    return ret;
+}
+int rename(const char *a, const char *b) {
+    init();
+    uint64_t seq0 = next_seq();
+    int ret = real_rename(a, b);
+    int err = ret < 0 ? errno : 0;
+    char buf[8192]; snprintf(buf, sizeof buf, "%s\n%s", a, b);
+    log_rec(K_RENAME, seq0, -1, abs_path_widx(AT_FDCWD, a), 0, 0, ret, err, 0, buf, (uint32_t)strlen(buf));
+    if (ret < 0) errno = err;
+    return ret;
+}
+int renameat(int da, const char *a, int db, const char *b) {
+    init();
+    uint64_t seq0 = next_seq();
+    int ret = real_renameat(da, a, db, b);
+    int err = ret < 0 ? errno : 0;
+    char buf[8192]; snprintf(buf, sizeof buf, "%s\n%s", a, b);
+    log_rec(K_RENAME, seq0, -1, abs_path_widx(da, a), 0, 0, ret, err, 1, buf, (uint32_t)strlen(buf));
+    if (ret < 0) errno = err;
+    return ret;
+}
+
+int close(int fd) {
+    init();
+    if (fd == log_fd && log_fd >= 0) { errno = EBADF; return -1; }
+    int widx = (fd > 2) ? fd_widx(fd) : -1;
+    if (widx < 0) return real_close(fd);
+    uint64_t seq0 = next_seq();
+    int ret = real_close(fd);
+    int err = ret < 0 ? errno : 0;
+    log_rec(K_CLOSE, seq0, fd, widx, 0, 0, ret, err, 0, NULL, 0);
+    if (ret < 0) errno = err;
+    return ret;
+}
+
+int fsync(int fd) {
+    init();
+    int widx = fd_widx(fd);
+    uint64_t seq0 = next_seq();
+    int ret = real_fsync(fd);
+    int err = ret < 0 ? errno : 0;
+    if (widx >= 0) log_rec(K_FSYNC, seq0, fd, widx, 0, 0, ret, err, 0, NULL, 0);
+    if (ret < 0) errno = err;
+    return ret;
+}
+int fdatasync(int fd) {
+    init();
+    int widx = fd_widx(fd);
+    uint64_t seq0 = next_seq();
+    int ret = real_fdatasync(fd);
+    int err = ret < 0 ? errno : 0;
+    if (widx >= 0) log_rec(K_FSYNC, seq0, fd, widx, 0, 0, ret, err, 1, NULL, 0);
+    if (ret < 0) errno = err;
+    return ret;
+}
+
+ssize_t copy_file_range(int fin, off64_t *oin, int fout, off64_t *oout, size_t len, unsigned int flags) {
+    init();
+    int win = fd_widx(fin), wout = fd_widx(fout);
+    if (!real_copy_file_range) { errno = ENOSYS; return -1; }
+    if (win < 0 && wout < 0) return real_copy_file_range(fin, oin, fout, oout, len, flags);
+    uint64_t seq0 = next_seq();
+    if (win >= 0) maybe_delay(win, 'c');
+    off64_t pin = oin ? *oin : real_lseek64(fin, 0, SEEK_CUR);
+    ssize_t ret = real_copy_file_range(fin, oin, fout, oout, len, flags);
+    int err = ret < 0 ? errno : 0;
+    /* fd = source, aux = widx of destination (or -1), off = source position */
+    log_rec(K_COPY, seq0, fin, win, pin, len, ret, err, wout, NULL, 0);
+    if (ret < 0) errno = err;
+    return ret;
+}
+
+ssize_t sendfile64(int fout, int fin, off64_t *off, size_t len) {
+    init();
+    int win = fd_widx(fin), wout = fd_widx(fout);
+    if (win < 0 && wout < 0) return real_sendfile64(fout, fin, off, len);
+    uint64_t seq0 = next_seq();
+    if (win >= 0) maybe_delay(win, 'c');
+    off64_t pin = off ? *off : real_lseek64(fin, 0, SEEK_CUR);
+    ssize_t ret = real_sendfile64(fout, fin, off, len);
+    int err = ret < 0 ? errno : 0;
+    log_rec(K_COPY, seq0, fin, win, pin, len, ret, err, wout, NULL, 0);
+    if (ret < 0) errno = err;
+    return ret;
+}
+ssize_t sendfile(int fout, int fin, off_t *off, size_t len) { return sendfile64(fout, fin, (off64_t *)off, len); }
